@@ -33,6 +33,9 @@ RULES = {
     "D9": R3.rule_D9,
     "W5": R3.rule_W5,
     "A11": R3.rule_A11,
+    "D1c": R3.rule_D1c,
+    "G4c": R3.rule_G4c,
+    "W6": R3.rule_W6,
     "N4": T.rule_N4,
     "N6": N.rule_N6,
     "T8": C.rule_T8,
@@ -127,16 +130,16 @@ PROPS = {
         "blank-line grouping are value-dependent and not decided. Also (D8): the column counters, which count characters, never receive a UTF-8 byte length (origin analysis of every store into the column fields).",
     },
     "C14": {
-        "rules": ["D1", "D5", "W2", "N5"],
+        "rules": ["D1", "D5", "W2", "N5", "D1c"],
         "claim": "Decides the bytes-vs-characters clause of C14 over the data crate: no UTF-8 byte length (str::len / String::len) reaches a "
         "character-count sink (take/skip/nth on chars(), a CharList(n) header, the result of get_char_list_len), and the literal parsers "
         "contain no truncating char->u8 cast; (D5) an escape accumulator that has been decoded is emptied before it accumulates the next "
         "escape, on every path of the literal parsers (typestate over their MIR); (W2) a number literal is stored as the number it spells: the "
         "hash that alone keys SimpleGarnishData's constant table separates every two numbers the type distinguishes (so `5.0` after `5` is not "
-        "handed the Integer's address). Radix parsing and round-trips are value-level and not decided. Also (N5): the literal parsers hand a parsed integer to the number type only through a conversion whose From impl does not narrow with an `as` cast (an integer literal outside i32 becomes a float, it does not wrap).",
+        "handed the Integer's address). Radix parsing and round-trips are value-level and not decided. Also (N5): the literal parsers hand a parsed integer to the number type only through a conversion whose From impl does not narrow with an `as` cast (an integer literal outside i32 becomes a float, it does not wrap). A CharList(n) header written before a run of Char cells counts the very string whose characters are written (D1c).",
     },
     "C15": {
-        "rules": ["D2", "D3", "W1", "W2", "D3b"],
+        "rules": ["D2", "D3", "W1", "W2", "D3b", "W6"],
         "claim": "Decides four structural clauses of C15: (D2) every index/slice of BasicGarnishData's raw heap vector is rebased on a "
         "StorageBlock.start (followed through locals, parameters to their call sites, struct fields to their initialisers); (D3) the six "
         "push_to_*_block siblings and the six copy stanzas of reallocate_heap each use one block in every role and agree on the "
@@ -144,17 +147,17 @@ PROPS = {
         "SimpleGarnishData's value list is append-only; (W2) every hand-written Hash impl inside the key of SimpleGarnishData's hash-keyed "
         "constant table feeds the hasher a loss-free encoding of the whole payload (no narrowing cast, rounding, or ignored payload), "
         "the necessary condition for 'a different constant gets a different address' since cache_add never compares the stored value. "
-        "Correctness for every interleaving/growth policy is not decided. Also (D3b): every returning path through reallocate_heap that installs new extents for one block installs them for all six (no shortcut that moves some blocks only).",
+        "Correctness for every interleaving/growth policy is not decided. Also (D3b): every returning path through reallocate_heap that installs new extents for one block installs them for all six (no shortcut that moves some blocks only). The same (W6) under this property: a returned address is an address written.",
     },
     "C16": {
-        "rules": ["G4", "T14", "D9"],
+        "rules": ["G4", "T14", "D9", "G4c"],
         "claim": "Decides the 'absent is not an error' clause of C16: inside both implementations of get_list_item / "
         "get_list_item_with_symbol / get_list_len / get_list_item_iter, their list helpers, and the runtime's index_list / "
         "access_with_symbol, the locally constructed errors are exactly the reviewed ones (not-a-list, corrupt cell); any other "
         "constructed error - in particular one that depends on the index value or the item kind - is reported; and every "
         "match-based comparator the data crate hands to a sort or binary search (the association slots of a list, the two symbol "
         "tables) is antisymmetric: mirrored arguments get opposite orderings (T14) - a necessary condition for the sorted prefix the "
-        "key lookup searches. Order, length and that every present key is found are not decided beyond that. Also: match-based sort comparators order two keyed cells ascending by their first payload field, the key the binary search compares (T14); the end handed to Extents::new is a length / exclusive bound, never `len - 1` (D9).",
+        "key lookup searches. Order, length and that every present key is found are not decided beyond that. Also: match-based sort comparators order two keyed cells ascending by their first payload field, the key the binary search compares (T14); the end handed to Extents::new is a length / exclusive bound, never `len - 1` (D9). A function that hands a caller-supplied number to the data's get_*_item tests it against zero first (G4c, sibling agreement of the four index_* functions) - the data impls clamp a negative number to index 0.",
     },
     "C11": {
         "rules": ["T5", "D1", "T15", "W4", "A11"],
@@ -164,7 +167,7 @@ PROPS = {
         "one-element list of it' is a character count, never a byte length (D1); the element-wise walk of two sequences loses no element: "
         "no iterator is consulted again (to decide which operand is longer) after a lossy adaptor - zip, take_while, map_while - ran over a "
         "borrow of it, so an operand exactly one element longer is never taken for equal (T15). Reflexivity/transitivity and element-wise "
-        "meaning depend on iterator contents and are not decided. Also (W4): the walk that flattens a concatenation into its item sequence expands every node it meets, without a visited set - a shared sub-sequence counts as often as it is referenced, which structural equality needs.",
+        "meaning depend on iterator contents and are not decided. Also (W4): the walk that flattens a concatenation into its item sequence expands every node it meets, without a visited set - a shared sub-sequence counts as often as it is referenced, which structural equality needs. Arms of the equality dispatch that queue component pairs queue them unconditionally (T5 conditional-queue) - no shortcut from the components' types around the dispatch that knows the cross-type equalities; the equality work list itself drains to its mark (A11).",
     },
     "C19": {
         "rules": ["T8", "W1", "D2"],
@@ -242,12 +245,12 @@ PROPS = {
         "re-joins after the out-of-line operand / arm is always emitted. Order and at-most-one-arm in else-chains are not decided. The Tis that makes the out-of-line right operand of && / || a boolean is added on every path (must-pass-through before the right root is constructed), never 'unless the operand is already boolean'.",
     },
     "C17": {
-        "rules": ["A4", "A1", "T2", "T10", "W5"],
+        "rules": ["A4", "A1", "T2", "T10", "W5", "W6"],
         "claim": "Decides the per-occurrence clauses of C17: in `resolve` the host callback is reached only on paths where the input-value "
         "lookup pushed nothing, at most once, with the symbol stored at the instruction's own operand, and a declining host leaves "
         "exactly one unit (A4 + A1); in apply the host's apply callback receives the external's number and the right operand, once; "
         "identifiers are compiled to Resolve carrying the symbol of their own text and properties to Put (T2 wiring, T10 attribution). "
-        "Counts and order across a whole program are not decided. Also (W5): every function that builds a SimpleGarnishData from another one carries over each function-pointer field (resolver, op handler), so the documented callbacks still fire on a clone.",
+        "Counts and order across a whole program are not decided. Also (W5): every function that builds a SimpleGarnishData from another one carries over each function-pointer field (resolver, op handler), so the documented callbacks still fire on a clone. BasicGarnishData's add_* / parse_add_* return the address a store primitive returned for the value they wrote, never an address computed from stored indices (W6) - the operand of the Resolve the builder emits must stay a symbol.",
     },
     "C09": {
         "rules": ["N1", "N2", "N3", "W2", "N6"],
@@ -266,7 +269,7 @@ PROPS = {
         "makes only like-typed pairs of the ordered types comparable; every arm of SimpleNumber's partial_cmp returns the "
         "primitive partial_cmp of its operands, so NaN stays incomparable (unit) and -0.0 equals 0.0 (N4); the lexicographic walk of two "
         "lists loses no element before the lengths are compared (T15: no lossy iterator adaptor over a borrowed operand that is consulted "
-        "again - the shorter-prefix-first clause). Agreement with the natural order on ordinary values is std's and is not decided. Also (T16): in the element-wise list comparison the two lengths are compared only after the element loop (dominance on the MIR CFG) - the shorter-prefix-first tie-break, never a length-first order.",
+        "again - the shorter-prefix-first clause). Agreement with the natural order on ordinary values is std's and is not decided. Also (T16): in the element-wise list comparison the two lengths are compared only after the element loop (dominance on the MIR CFG) - the shorter-prefix-first tie-break, never a length-first order. Every arm of SimpleNumber::partial_cmp compares self with other in that order (N4 operands-swapped).",
     },
 }
 
